@@ -331,6 +331,11 @@ func callEvent(names map[string]bool, recvStores bool, fn *ssa.Function) func(ss
 			if sc := x.Call.StaticCallee(); sc != nil && names[sc.Name()] {
 				return sc.Name()
 			}
+			// inside a bracketed operation nothing else may fire callbacks: a call that reaches another
+			// lifecycle hook (a pop while the script changes) puts that hook's events between the two
+			if sc := x.Call.StaticCallee(); sc != nil && recvStores && reachesLifecycleHook(sc, map[*ssa.Function]bool{}) {
+				return "fires callbacks through " + sc.Name()
+			}
 		case *ssa.Defer:
 			if sc := x.Call.StaticCallee(); sc != nil && names[sc.Name()] {
 				return "defer " + sc.Name()
@@ -840,4 +845,37 @@ func sCopyIn(c *Ctx, fn *ssa.Function) int {
 		}
 	}
 	return n + byAppend
+}
+
+var lifecycleHooks = setOf("afterSuccess", "afterError", "beforeExecute", "afterExecute", "beforeStep", "afterStep", "beforeScriptChange", "afterScriptChange",
+	"beforeStackPush", "afterStackPush", "beforeStackPop", "afterStackPop", "beforeExecuteOpcode", "afterExecuteOpcode")
+
+// reachesLifecycleHook: fn is, or statically calls (transitively, inside the interpreter package), one of the
+// methods that hand control to an attached debugger.
+func reachesLifecycleHook(fn *ssa.Function, seen map[*ssa.Function]bool) bool {
+	if fn == nil || seen[fn] || len(fn.Blocks) == 0 || fn.Pkg == nil || !strings.HasSuffix(fn.Pkg.Pkg.Path(), "bscript/interpreter") {
+		return false
+	}
+	seen[fn] = true
+	if lifecycleHooks[fn.Name()] && fn.Signature.Recv() != nil {
+		return true
+	}
+	for _, b := range fn.Blocks {
+		for _, ins := range b.Instrs {
+			var cc *ssa.CallCommon
+			switch x := ins.(type) {
+			case *ssa.Call:
+				cc = &x.Call
+			case *ssa.Defer:
+				cc = &x.Call
+			}
+			if cc == nil {
+				continue
+			}
+			if sc := cc.StaticCallee(); sc != nil && reachesLifecycleHook(sc, seen) {
+				return true
+			}
+		}
+	}
+	return false
 }
